@@ -11,7 +11,8 @@ Every random choice comes from the rng handed in."""
 import copy
 
 # ---------------------------------------------------------------------------------- gaps
-COMMENTS = ["/* c */", "/*c,(*/", "/**/", "-- c\n", "--c)\n", "/* ' */", "/*\n*/"]
+# (comments that start with "/*/" are ordinary cases since 41d65d3: their closing "*/" is looked for after the "/*")
+COMMENTS = ["/* c */", "/*c,(*/", "/**/", "-- c\n", "--c)\n", "/* ' */", "/*\n*/", "/*/ x */", "/*/*/", "/*/,(*/", "/***/"]
 WS1 = ["\t", "\n", "\r", "\f"]
 WSRUN = ["  ", " \n", "\n  ", "\t\t", " \t ", "\r\n"]
 
@@ -45,7 +46,7 @@ def gap_tags(g):
         if is_comment(g["p"][0]) or is_comment(g["p"][-1]):
             t.add(f"cmtadj:{w}")          # a comment touches one of the neighbouring tokens
         if any(c.startswith("/*/") for c in coms):
-            t.add("cmt:slash-star-slash")
+            t.add(f"slash-star-slash:{w}")     # informational (not a risky tag): repaired by 41d65d3
     if not coms:
         if txt == "":
             t.add(f"nogap:{w}")
@@ -81,7 +82,7 @@ def random_gap(r, where, default, nasty, required=True):
     elif k < 0.90:
         p = [r.choice(WS1), r.choice(COMMENTS), " "]
     elif k < 0.95:
-        p = ["/*/ x */"] if required else ["/*/ x */ "]
+        p = [r.choice(["/*/ x */", "/*/*/", "/*/\n*/"])] if required else [r.choice(["/*/ x */ ", " /*/*/"])]
     else:
         p = [""] if not required else [" "]
     if p == [""] and required:
@@ -93,8 +94,10 @@ def random_gap(r, where, default, nasty, required=True):
 PLAIN_NAMES = ["a", "b", "c1", "col_2", "Name", "primaryEmail", "checked", "uniqueId", "foreign_id", "constraintx",
                "defaulted", "notes", "x", "_y", "é", "日本", "Z9", "asof", "without_x", "rowid_", "k"]
 QUOTED_EXTRA = ["a b", "a,b", "a(b", "a)b", "(", ")", "a-b", "a--b", "a/b", "a/*b", "a.b", "primary", "check", "select",
-                "a  b", "a\tb", "é ü", "x'y", 'x"y', "x`y", "x[y", "1a", "", "a;b", "CONSTRAINT", "unique", " lead", "trail "]
+                "a  b", "a\tb", "é ü", "x'y", 'x"y', "x`y", "x[y", "1a", "", "a;b", "CONSTRAINT", "unique", " lead", "trail ", "a\nb", "a\nb"]
 QUOTE = {"dq": ('"', '"'), "sq": ("'", "'"), "bt": ("`", "`"), "br": ("[", "]")}
+# names that contain the quote character of their own quoting style (Q): written doubled, read back single (687226d)
+DOUBLED = ["xQy", "Q", "QQ", "aQ", "Qa", "aQQb", "QaQ", "a QbQ", "itQs", "aQ,b", "aQ(b", "aQ)b", "Q é", "Q.Q"]
 
 
 def ident(text, style="plain"):
@@ -132,6 +135,9 @@ def ident_tags(i):
             t.add("ident:other-quote-char")
         if txt == "":
             t.add("ident:empty")
+        if "\n" in txt:
+            # inside "…", '…', `…` the name regex is a negated class since 687226d; […] is still `.*?`
+            t.add("ident:newline-in-bracket" if i["s"] == "br" else "quote-newline:" + i["s"])
     if any(ord(ch) > 127 for ch in i["t"]):
         t.add("ident:non-ascii")
     return t
@@ -144,6 +150,8 @@ def random_ident(r, nasty, used):
         else:
             style = r.choice(["dq", "dq", "sq", "bt", "br"])
             txt = r.choice(PLAIN_NAMES + QUOTED_EXTRA + QUOTED_EXTRA)
+            if style != "br" and r.random() < 0.3:
+                txt = r.choice(DOUBLED).replace("Q", QUOTE[style][1])
             if style == "br" and "]" in txt:
                 continue
             if txt == "" and style in ("sq",):
@@ -512,7 +520,7 @@ def _steps(t):
                 if k >= len(gs) or j >= len(gs[k]["p"]):
                     return False
                 p = gs[k]["p"][j]
-                if p.startswith("/*") and not p.startswith("/*/") and p != "/**/":
+                if p.startswith("/*") and p != "/**/":
                     gs[k]["p"][j] = "/**/"
                     return True
                 if p.startswith("--") and p != "--\n":
